@@ -128,3 +128,384 @@ Proof.
     unfold ity_of_tref; simpl. destruct x; simpl in *; try discriminate; reflexivity.
   - apply negb_false_iff in H. apply sub_nullable. apply (subtype_sub s); auto.
 Qed.
+
+(* ====================================================================== *)
+(* Part 2: composition with the document-level theorem of C06             *)
+(*   C06_rule_equiv_VariablesInAllowedPosition (Properties/C06.v)         *)
+From PyGql Require Spec.ValidSpec Spec.ValidLocalSpec Spec.ValidValueSpec Spec.ValidTypedSpec
+     Proofs.ValidVarProofs Properties.C06.
+From PyGql Require Import Proofs.CoerceProofs.
+
+Module VS := PyGql.Spec.ValidSpec.
+Module VL := PyGql.Spec.ValidLocalSpec.
+Module VV := PyGql.Spec.ValidValueSpec.
+Module VT := PyGql.Spec.ValidTypedSpec.
+Module VP := PyGql.Proofs.ValidVarProofs.
+Module C06 := PyGql.Properties.C06.
+
+(* ---- the input-type fragment of a CoerceModel schema as a ValidSchema ---- *)
+Definition sk_of (k : scalar_kind) : V.scalar_kind :=
+  match k with
+  | KInt => V.SkInt | KFloat => V.SkFloat | KString => V.SkString
+  | KID => V.SkID | KBoolean => V.SkBoolean | KAny | KTag => V.SkCustom
+  end.
+
+Fixpoint tref_of (t : ity) : V.tref :=
+  match t with
+  | INamed nn n => if nn then V.RNonNull (V.RNamed n) else V.RNamed n
+  | IList nn t' => if nn then V.RNonNull (V.RList (tref_of t')) else V.RList (tref_of t')
+  end.
+
+Definition sarg_of (f : ifield) : V.sarg :=
+  V.SArg (f_name f) (tref_of (f_ty f)) (match f_default f with Some _ => true | None => false end).
+
+Definition tdef_of (d : tdef) : V.tdef :=
+  match d with
+  | TDScalar k => V.TScalar (sk_of k)
+  | TDEnum vals => V.TEnum (map fst vals)
+  | TDInput fs => V.TInput (map sarg_of fs)
+  | TDOutput => V.TObject [] []
+  end.
+
+(* total translation; [outs] / roots / directives are whatever the request's
+   schema has besides the input types (object types, Query, ...) *)
+Definition valid_schema_of (s : schema) (outs : list (str * V.tdef))
+           (q m sb : option str) (dirs : list (str * V.sdir)) : V.schema :=
+  V.Schema (map (fun p => (fst p, tdef_of (snd p))) s ++ outs) q m sb dirs.
+
+(* the two schema models describe the same input types *)
+Definition schema_agree (s : schema) (s' : V.schema) : Prop :=
+  forall n d, alookup n s = Some d -> d <> TDOutput -> V.lookup_type s' n = Some (tdef_of d).
+
+Lemma alookup_map_app {A B} (g : A -> B) (l : list (str * A)) (r : list (str * B)) n d :
+  alookup n l = Some d -> alookup n (map (fun p => (fst p, g (snd p))) l ++ r) = Some (g d).
+Proof.
+  induction l as [|[k v] l IH]; simpl; [discriminate|].
+  destruct (str_eqb n k); [intros H; inversion H; reflexivity|assumption].
+Qed.
+
+Theorem valid_schema_of_agree s outs q m sb dirs :
+  schema_agree s (valid_schema_of s outs q m sb dirs).
+Proof. intros n d H _. unfold V.lookup_type, valid_schema_of; simpl. apply alookup_map_app; assumption. Qed.
+
+Lemma ity_of_tref_of t : ity_of_tref (tref_of t) = t.
+Proof.
+  unfold ity_of_tref. induction t as [[|] n|[|] t IH]; simpl; try reflexivity;
+    unfold ity_of_tref in IH; rewrite IH; reflexivity.
+Qed.
+
+Lemma wf_tref_of t : wf_tref (tref_of t) = true.
+Proof. induction t as [[|] n|[|] t IH]; simpl; auto. Qed.
+
+Lemma unwrap_tref_of t : V.unwrap (tref_of t) = ity_name t.
+Proof. induction t as [[|] n|[|] t IH]; simpl; auto. Qed.
+
+Lemma nullable_tref_of t : V.nullable (tref_of t) = tref_of (ity_nullable t).
+Proof. destruct t as [[|] n|[|] t]; reflexivity. Qed.
+
+Lemma agree_input_named s s' t :
+  schema_agree s s' -> usable s t -> V.is_input_named s' (ity_name t) = true
+                                    /\ V.is_abstract s' (ity_name t) = false.
+Proof.
+  intros Ha (Hb & Hi). unfold bound in Hb. unfold input_ty in Hi.
+  destruct (alookup (ity_name t) s) as [d|] eqn:E; [|congruence].
+  assert (Hd : d <> TDOutput) by congruence.
+  unfold V.is_input_named, V.is_abstract. rewrite (Ha _ _ E Hd).
+  destruct d; simpl; auto; congruence.
+Qed.
+
+Lemma agree_input_type s s' t :
+  schema_agree s s' -> usable s t -> V.is_input_type s' (tref_of t) = true.
+Proof.
+  intros Ha Hu. unfold V.is_input_type. rewrite unwrap_tref_of.
+  apply (agree_input_named s s' t Ha Hu).
+Qed.
+
+(* is_subtype on translated input types is the covariance [sub] of the spec *)
+Theorem subtype_agree s s' a b :
+  schema_agree s s' -> usable s b ->
+  V.is_subtype s' (tref_of a) (tref_of b) = true -> sub a b.
+Proof.
+  intros Ha Hu H. rewrite <- (ity_of_tref_of a), <- (ity_of_tref_of b).
+  apply (subtype_sub s'); auto using wf_tref_of.
+  rewrite unwrap_tref_of. apply (agree_input_named s s' b Ha Hu).
+Qed.
+
+(* ---- occurrences of variables: mine are among theirs ---- *)
+Definition fields_unique (s : schema) : Prop :=
+  forall n fs, alookup n s = Some (TDInput fs) -> NoDup (map f_name fs).
+
+Lemma find_arg_sarg_of fs f :
+  NoDup (map f_name fs) -> In f fs -> V.find_arg (f_name f) (map sarg_of fs) = Some (sarg_of f).
+Proof.
+  unfold V.find_arg. induction fs as [|g fs IH]; simpl; [intros _ []|].
+  intros Hnd Hin. inversion Hnd as [|? ? Hnin Hnd']; subst.
+  destruct Hin as [->|Hin].
+  - rewrite str_eqb_refl. reflexivity.
+  - destruct (str_eqb_spec (f_name g) (f_name f)) as [E|_]; [|auto].
+    exfalso. apply Hnin. rewrite E. apply in_map; assumption.
+Qed.
+
+Lemma usable_list s nn t : usable s (IList nn t) <-> usable s t.
+Proof. unfold usable, bound, input_ty; simpl. tauto. Qed.
+
+Lemma pos_field_unwrap s' a b k :
+  V.unwrap a = V.unwrap b -> VT.pos_field s' (Some a) k = VT.pos_field s' (Some b) k.
+Proof. intros E. unfold VT.pos_field. rewrite E. reflexivity. Qed.
+
+Lemma var_at_included s s' :
+  schema_agree s s' -> schema_closed s -> schema_inputs s -> fields_unique s ->
+  forall t l x tp, var_at s t l x tp -> usable s t ->
+    usable s tp /\ forall hd, exists hd', VT.var_at s' (Some (tref_of t)) hd l x (Some (tref_of tp)) hd'.
+Proof.
+  intros Ha Hc Hi Hu t l x tp H.
+  induction H as [t y lc|nn t items lc i y tp Hin H IH|nn t l y tp Hp H IH
+                 |nn n fs lfs lc nm v lc' f y tp Hn Hin Hf Hname H IH]; intros Hus.
+  - split; [assumption|]. intros hd. exists hd. constructor.
+  - apply usable_list in Hus. destruct (IH Hus) as (Hut & IH'). split; [assumption|].
+    intros hd. destruct (IH' false) as (hd' & Hv). exists hd'.
+    eapply VT.va_list; [exact Hin|].
+    replace (VT.pos_item s' (Some (tref_of (IList nn t)))) with (Some (tref_of t)); [exact Hv|].
+    unfold VT.pos_item. rewrite nullable_tref_of. simpl.
+    unfold VT.pos_filter. rewrite (agree_input_type s s' t Ha Hus). reflexivity.
+  - apply usable_list in Hus. destruct (IH Hus) as (Hut & IH'). split; [assumption|].
+    intros hd. destruct (IH' hd) as (hd' & Hv). exists hd'.
+    destruct l; simpl in Hp; try discriminate; inversion Hv; subst.
+    eapply VT.va_obj; [eassumption|].
+    rewrite (pos_field_unwrap s' (tref_of (IList nn t)) (tref_of t)); [eassumption|].
+    rewrite !unwrap_tref_of. reflexivity.
+  - assert (Huf : usable s (f_ty f)) by (split; [eapply Hc|eapply Hi]; eauto).
+    destruct (IH Huf) as (Hut & IH'). split; [assumption|].
+    assert (Hpf : VT.pos_field s' (Some (tref_of (INamed nn n))) (n_val nm)
+                  = (Some (tref_of (f_ty f)), V.sa_default (sarg_of f))).
+    { unfold VT.pos_field. rewrite unwrap_tref_of. simpl.
+      assert (Hd : TDInput fs <> TDOutput) by discriminate.
+      rewrite (Ha _ _ Hn Hd). simpl. rewrite <- Hname.
+      rewrite (find_arg_sarg_of fs f (Hu _ _ Hn) Hf). simpl.
+      unfold VT.pos_filter. rewrite (agree_input_type s s' _ Ha Huf). reflexivity. }
+    intros hd. destruct (IH' (V.sa_default (sarg_of f))) as (hd' & Hv). exists hd'.
+    eapply VT.va_obj; [exact Hin|]. rewrite Hpf. simpl. exact Hv.
+Qed.
+
+(* ---- IsVariableUsageAllowed gives the premise of usage_ok ---- *)
+Lemma vv_wf_tref t : VV.wf_tref t -> wf_tref t = true.
+Proof.
+  induction t as [n|t IH|t IH]; simpl; auto.
+  destruct t; simpl in *; try contradiction; auto.
+Qed.
+
+Lemma usage_allowed_sub s' (vd : var_def) it hd vt :
+  V.type_from_ast s' (vd_type vd) = Some vt ->
+  wf_tref it = true -> wf_tref vt = true -> V.is_abstract s' (V.unwrap it) = false ->
+  VT.usage_allowed s' vd it hd ->
+  sub (ity_nullable (ity_of_ty (vd_type vd))) (ity_nullable (ity_of_tref it)).
+Proof.
+  intros Hv Wi Wv Hab H. unfold VT.usage_allowed in H. rewrite Hv in H.
+  unfold ity_of_ty. rewrite <- (type_from_ast_ity s' (vd_type vd) false vt Hv). fold (ity_of_tref vt).
+  destruct (VT.is_nn it && negb (VT.is_nn vt)) eqn:C.
+  - destruct H as (_ & H).
+    destruct it as [m|y|y]; simpl in C; try discriminate.
+    simpl in Wi. apply andb_true_iff in Wi as (By & Wy). simpl in H, Hab.
+    apply (subtype_sub s') in H; auto. apply sub_nullable in H.
+    replace (ity_nullable (ity_of_tref (V.RNonNull y))) with (ity_nullable (ity_of_tref y)); auto.
+    unfold ity_of_tref; simpl. destruct y; simpl in *; try discriminate; reflexivity.
+  - apply sub_nullable. apply (subtype_sub s'); auto.
+Qed.
+
+(* ---- arguments of a field node ---- *)
+Lemma arg_lookup_In call k l :
+  arg_lookup call k = Some l -> exists a, In a call /\ n_val (a_name a) = k /\ a_val a = l.
+Proof.
+  unfold arg_lookup, alookup_last. intros H. apply alookup_In in H. apply in_rev in H.
+  apply in_map_iff in H as (a & E & Hin). inversion E; subst. eauto.
+Qed.
+
+Lemma type_from_ast_known s' : forall t,
+  V.lookup_type s' (ity_name (ity_of_ty t)) <> None -> V.type_from_ast s' t <> None.
+Proof.
+  unfold ity_of_ty. intros t. generalize false.
+  induction t as [n l|t IH l|t IH l]; intros nn H; simpl in *.
+  - destruct (V.lookup_type s' (n_val n)); congruence.
+  - specialize (IH false H). destruct (V.type_from_ast s' t); congruence.
+  - specialize (IH true H). destruct (V.type_from_ast s' t); congruence.
+Qed.
+
+(* the field node is part of the operation: in its own body or in a fragment
+   reachable from it *)
+Definition node_in_operation (s' : V.schema) (d : document) (op : definition)
+           (p : str) (z : selection) : Prop :=
+  VT.reaches_in s' op (Some p) z
+  \/ exists fr df, VS.frag_reach d (VS.def_sels op) fr /\ In df (doc_defs d)
+                   /\ VS.fragment_named df fr /\ VT.reaches_in s' df (Some p) z.
+
+Theorem usage_ok_from_validation s s' d op p a n args dirs sl sb l f defs :
+  schema_agree s s' -> schema_closed s -> schema_inputs s -> fields_unique s ->
+  (* the validation side: rule 24 of the C05/C06 model is silent on the document *)
+  NoDup (VP.op_key_list d) -> VL.spec_unique_variable_names d -> VL.spec_known_directives s' d ->
+  VT.wf_var_types s' d ->
+  R.r24_variables_in_allowed_position s' d = Ok [] ->
+  (* the request: operation op of d, a field node of it, its definition *)
+  In op (doc_defs d) -> VS.is_operation op ->
+  node_in_operation s' d op p (SField a n args dirs sl sb l) ->
+  V.get_field_def s' p (n_val n) = Some f ->
+  V.sf_args f = map sarg_of defs -> NoDup (map f_name defs) ->
+  (forall d0, In d0 defs -> usable s (f_ty d0)) ->
+  (forall vd, In vd (VL.op_vars op) -> V.type_from_ast s' (vd_type vd) <> None) ->
+  usage_ok s (VL.op_vars op) defs args.
+Proof.
+  intros Ha Hc Hi Hu Hk Huv Hkd Hwv H24 Hop Hisop Hnode Hf Hargs Hnd Hus Hknown.
+  apply (proj1 (C06.C06_rule_equiv_VariablesInAllowedPosition s' d Hk Huv Hkd)) in H24.
+  intros d0 lit x tp vd Hd0 Hl Hat Hvd Hx.
+  destruct (var_at_included s s' Ha Hc Hi Hu _ _ _ _ Hat (Hus d0 Hd0)) as (Hutp & Hincl).
+  destruct (Hincl (V.sa_default (sarg_of d0))) as (hd' & Hv).
+  apply arg_lookup_In in Hl as (arg & Harg & Hname & Hval). subst lit.
+  assert (Hava : VT.args_var_at s' (V.sf_args f) args x (tref_of tp) hd').
+  { exists arg, (sarg_of d0). split; [assumption|]. split.
+    - rewrite Hargs, Hname. apply find_arg_sarg_of; assumption.
+    - simpl. unfold VT.pos_filter. rewrite (agree_input_type s s' _ Ha (Hus d0 Hd0)). exact Hv. }
+  assert (Hopat : VT.op_var_at s' d op x (tref_of tp) hd').
+  { destruct Hnode as [Hr|(fr & df & Hfr & Hdf & Hfn & Hr)].
+    - left. left. exists p, a, n, args, dirs, sl, sb, l, f. auto.
+    - right. exists fr, df. repeat split; auto. left. exists p, a, n, args, dirs, sl, sb, l, f. auto. }
+  pose proof (H24 op x (tref_of tp) hd' vd Hop Hisop Hopat Hvd Hx) as Hall.
+  destruct (V.type_from_ast s' (vd_type vd)) as [vt|] eqn:Evt; [|exfalso; eapply Hknown; eauto].
+  rewrite <- (ity_of_tref_of tp) at 1.
+  eapply (usage_allowed_sub s' vd (tref_of tp) hd' vt); auto using wf_tref_of.
+  - apply vv_wf_tref. eapply Hwv; eauto.
+  - rewrite unwrap_tref_of. apply (agree_input_named s s' tp Ha Hutp).
+Qed.
+
+(* ---- the whole request, with no usage_ok hypothesis left ---- *)
+Lemma var_bindings_all_ok s raw vds asg :
+  var_bindings s raw vds = Ok asg -> forall vd, In vd vds -> exists b, var_binding s raw vd = Ok b.
+Proof.
+  revert asg. induction vds as [|v vds IH]; simpl; intros asg H vd [].
+  - subst v. destruct (var_binding s raw vd) as [b| | |]; try discriminate; eauto.
+    destruct (var_bindings s raw vds); discriminate.
+  - destruct (var_binding s raw v) as [b| | |]; try discriminate.
+    + destruct (var_bindings s raw vds) as [l| | |] eqn:E; try discriminate. eapply IH; eauto.
+    + destruct (var_bindings s raw vds); discriminate.
+Qed.
+
+Lemma var_binding_ok_known s s' raw vd b :
+  schema_agree s s' -> var_binding s raw vd = Ok b -> V.type_from_ast s' (vd_type vd) <> None.
+Proof.
+  intros Ha H. apply type_from_ast_known. unfold var_binding in H.
+  destruct (alookup (ity_name (ity_of_ty (vd_type vd))) s) as [d|] eqn:E; [|discriminate].
+  destruct (is_input_def d) eqn:Ei; simpl in H; [|discriminate].
+  assert (Hd : d <> TDOutput) by (intros ->; discriminate).
+  rewrite (Ha _ _ E Hd). discriminate.
+Qed.
+
+Theorem validated_request_sound s s' d op p a n args dirs sl sb l f defs raw kw :
+  schema_agree s s' -> schema_wf s -> schema_closed s -> fields_unique s ->
+  NoDup (VP.op_key_list d) -> VL.spec_unique_variable_names d -> VL.spec_known_directives s' d ->
+  VT.wf_var_types s' d ->
+  R.r24_variables_in_allowed_position s' d = Ok [] ->
+  In op (doc_defs d) -> VS.is_operation op ->
+  node_in_operation s' d op p (SField a n args dirs sl sb l) ->
+  V.get_field_def s' p (n_val n) = Some f ->
+  V.sf_args f = map sarg_of defs -> NoDup (map f_name defs) ->
+  args_wf s defs -> (forall d0, In d0 defs -> bound s (f_ty d0)) ->
+  exec_kwargs s defs (VL.op_vars op) args raw = Ok kw ->
+  NoDup (map fst kw)
+  /\ forall k v, In (k, v) kw -> exists d0, In d0 defs /\ f_py d0 = k /\ conforms s (f_ty d0) v.
+Proof.
+  intros Ha Hwf Hc Hu Hk Huv Hkd Hwv H24 Hop Hisop Hnode Hf Hargs Hnd Hawf Hb Hex.
+  assert (Hi : schema_inputs s) by (destruct Hwf as (_ & _ & Hi); exact Hi).
+  eapply exec_sound; eauto.
+  eapply usage_ok_from_validation; eauto.
+  - intros d0 Hd0. split; [apply Hb; assumption|apply (proj2 Hawf); assumption].
+  - intros vd Hvd. unfold exec_kwargs in Hex.
+    destruct (coerce_variable_values s (VL.op_vars op) raw) as [vs| | |] eqn:Ev; try discriminate.
+    unfold coerce_variable_values in Ev.
+    destruct (var_bindings s raw (VL.op_vars op)) as [asg| | |] eqn:Eb; try discriminate.
+    destruct (var_bindings_all_ok _ _ _ _ Eb vd Hvd) as (b & Hbv).
+    eapply var_binding_ok_known; eauto.
+Qed.
+
+(* the same from the verdict of the 25 validation rules (all but
+   OverlappingFieldsCanBeMerged) of the C05/C06 model: C06_verdict_25 *)
+From PyGql Require Proofs.ValidVerdict25Proofs.
+Module V25 := PyGql.Proofs.ValidVerdict25Proofs.
+Module VO := PyGql.Valid.ValidOverlap.
+
+Theorem validated25_request_sound fuel s s' d op p a n args dirs sl sb l f defs raw kw :
+  schema_agree s s' -> schema_wf s -> schema_closed s -> fields_unique s ->
+  VV.wf_inputs s' -> VT.wf_arg_types s' -> VT.wf_var_types s' d ->
+  VO.validate_rules fuel s' d VO.rules_but_overlap = Ok [] ->
+  In op (doc_defs d) -> VS.is_operation op ->
+  node_in_operation s' d op p (SField a n args dirs sl sb l) ->
+  V.get_field_def s' p (n_val n) = Some f ->
+  V.sf_args f = map sarg_of defs -> NoDup (map f_name defs) ->
+  args_wf s defs -> (forall d0, In d0 defs -> bound s (f_ty d0)) ->
+  exec_kwargs s defs (VL.op_vars op) args raw = Ok kw ->
+  NoDup (map fst kw)
+  /\ forall k v, In (k, v) kw -> exists d0, In d0 defs /\ f_py d0 = k /\ conforms s (f_ty d0) v.
+Proof.
+  intros Ha Hwf Hc Hu Hwi Hwa Hwv Hval.
+  apply (proj1 (C06.C06_verdict_25 fuel s' d Hwi Hwa Hwv)) in Hval.
+  destruct Hval as (Hvs & _ & H24).
+  destruct (V25.valid_spec_parts s' d Hvs) as (Hk & Huv & Hkd).
+  apply (proj2 (C06.C06_rule_equiv_VariablesInAllowedPosition s' d Hk Huv Hkd)) in H24.
+  eapply validated_request_sound; eauto.
+Qed.
+
+(* non-vacuity of usage_ok: a list variable at a list argument, a stricter
+   variable inside an object literal *)
+Local Open Scope string_scope.
+Example usage_ok_example :
+  let S' x := str_of_string x in
+  let nm x := Name (S' x) None in
+  let s := [ (S' "Int", TDScalar KInt);
+             (S' "P", TDInput [IField (S' "x") (S' "x") (INamed false (S' "Int")) None]) ] in
+  let vds := [ VarDef (nm "v") None (TList (TNonNull (TNamed (nm "Int") None) None) None) None [] None;
+               VarDef (nm "w") None (TNonNull (TNamed (nm "Int") None) None) None [] None ] in
+  let defs := [ IField (S' "xs") (S' "xs") (IList false (INamed false (S' "Int"))) None;
+                IField (S' "p") (S' "p") (INamed true (S' "P")) None ] in
+  let call := [ Arg (nm "xs") (VVar (nm "v") None) None;
+                Arg (nm "p") (VObject [(nm "x", VVar (nm "w") None, None)] None) None ] in
+  usage_ok s vds defs call.
+Proof.
+  intros S' nm s vds defs call d0 l x tp vd Hd Hl Hat Hvd Hx.
+  assert (Hvar : forall t y lc z tq, var_at s t (VVar y lc) z tq -> z = n_val y /\ tq = t).
+  { intros t y lc z tq H. remember (VVar y lc) as lv. revert Heqlv.
+    induction H; intros E; try discriminate.
+    - inversion E; auto.
+    - subst l0. discriminate. }
+  destruct Hd as [<-|[<-|[]]]; vm_compute in Hl; inversion Hl; subst l; clear Hl.
+  - apply Hvar in Hat as (-> & ->).
+    destruct Hvd as [<-|[<-|[]]]; vm_compute in Hx; try discriminate. vm_compute. auto.
+  - revert Hx. inversion Hat as [| | |nn n0 fs lfs lc nm0 v lc' f0 y tq Hn Hin Hf Hname Hsub]; subst.
+    vm_compute in Hn. inversion Hn; subst fs; clear Hn.
+    destruct Hf as [<-|[]]. destruct Hin as [E|[]]. inversion E; subst; clear E.
+    apply Hvar in Hsub as (-> & ->). intros Hx.
+    destruct Hvd as [<-|[<-|[]]]; vm_compute in Hx; try discriminate. vm_compute. auto.
+Qed.
+
+(* the converse of subtype_agree: on translated types Schema.is_subtype is
+   exactly the covariance [sub] *)
+Lemma tref_eqb_refl t : V.tref_eqb t t = true.
+Proof. induction t; simpl; auto. apply str_eqb_refl. Qed.
+
+Lemma is_subtype_refl s' t : V.is_subtype s' t t = true.
+Proof. rewrite is_subtype_unfold, tref_eqb_refl. reflexivity. Qed.
+
+Lemma is_subtype_list s' a b :
+  V.is_subtype s' a b = true -> V.is_subtype s' (V.RList a) (V.RList b) = true.
+Proof.
+  intros H. rewrite is_subtype_unfold. destruct (V.tref_eqb (V.RList a) (V.RList b)); auto.
+Qed.
+
+Theorem sub_subtype s' : forall a b, sub a b -> V.is_subtype s' (tref_of a) (tref_of b) = true.
+Proof.
+  induction a as [na n|na a IH]; intros [nb m|nb b] H; simpl in H; try contradiction.
+  - destruct H as (<- & Hn). destruct na, nb; cbn [tref_of]; try apply is_subtype_refl.
+    + rewrite is_subtype_unfold. cbn [V.tref_eqb]. apply is_subtype_refl.
+    + specialize (Hn eq_refl). discriminate.
+  - destruct H as (Hn & Hs). specialize (IH b Hs).
+    pose proof (is_subtype_list s' _ _ IH) as HL.
+    destruct na, nb; cbn [tref_of]; try exact HL;
+      try (specialize (Hn eq_refl); discriminate);
+      rewrite is_subtype_unfold; cbn [V.tref_eqb]; try destruct (V.tref_eqb _ _); auto.
+Qed.
